@@ -62,15 +62,13 @@ func (p *Pegnet) IsReplayTransaction(tx *sql.Tx, entryHash *factom.Bytes32) (boo
 		return false, err
 	}
 	defer rows.Close()
-	err = rows.Err()
-	if err != nil {
-		if err == sql.ErrNoRows {
-			return false, nil
-		}
-		return false, err
-	}
 	// If there is any result, then we know the transaction has been executed before and thus a replay.
-	return rows.Next(), nil
+	if rows.Next() {
+		return true, nil
+	}
+	// No row: either there is none, or reading it failed. The driver steps the
+	// statement inside Next, so this is where a failure shows.
+	return false, rows.Err()
 }
 
 // IsRecordedTransaction returns true if a copy of this entry was already
